@@ -1563,8 +1563,9 @@ void XMLReader::doInitDecode()
                 }
 
                 // Make sure we don't exhaust the limited prolog buffer size.
-                // Leave room for a space added at the end of this function.
-                if (fCharsAvail == kCharBufSize - 1) {
+                // Leave room for a surrogate pair and for a space added at
+                // the end of this function.
+                if (fCharsAvail >= kCharBufSize - 2) {
                     fCharsAvail = 0;
                     fRawBufIndex = 0;
                     fMemoryManager->deallocate(fPublicId);
@@ -1586,6 +1587,20 @@ void XMLReader::doInitDecode()
                 // Swap if that is required for this machine
                 if (fSwapped)
                     curVal = BitOps::swapBytes(curVal);
+
+                //  A character beyond the BMP is legal here: there may be no
+                //  declaration at all, and then everything up to the first
+                //  '>' (or all of a small entity) passes through this loop.
+                //  Store it as the surrogate pair the transcoder would give.
+                if ((curVal > 0xFFFF) && (curVal <= 0x10FFFF))
+                {
+                    curVal -= 0x10000;
+                    fCharSizeBuf[fCharsAvail] = 4;
+                    fCharBuf[fCharsAvail++] = XMLCh((curVal >> 10) + 0xD800);
+                    fCharSizeBuf[fCharsAvail] = 0;
+                    fCharBuf[fCharsAvail++] = XMLCh((curVal & 0x3FF) + 0xDC00);
+                    continue;
+                }
 
                 // Make sure its at least semi legal. If not, undo and throw
                 if (curVal > 0xFFFF)
